@@ -25,7 +25,8 @@ LEVEL = "translation_validation"
 MOD = "pv.props.c07"
 
 VARIANTS = ["all_stored", "all_subst", "all_inlined", "alternate", "random0", "random1", "random2", "named", "user_tags",
-            "stored_reductions", "subst_in_reduction"]
+            "stored_reductions", "subst_in_reduction", "materialize_with_mpms", "stored_output_copy"]
+SYM_VARIANTS = ["prefix_sizeparam_stored", "prefix_sizeparam_subst", "all_stored", "alternate"]
 
 
 def _nodes_in_order(dag):
@@ -44,6 +45,13 @@ def tagger(variant: str, seed: int):
     from pv.props.c04tags import BazAxisTag, FooTag, BarTag
 
     def transform(dag, ins):
+        if variant == "materialize_with_mpms":
+            return pt.transform.materialize_with_mpms(dag)        # the real tag-adding transformation
+        if variant == "stored_output_copy":
+            # every output is returned as a *tagged copy* while other uses keep the untagged node
+            return pt.make_dict_of_named_arrays({
+                k: (dag[k].expr.tagged(ImplStored()) if not isinstance(dag[k].expr, pt.array.InputArgumentBase)
+                    else dag[k].expr) for k in dag.keys()})
         nodes = _nodes_in_order(dag)
         outs = {id(dag[k].expr) for k in dag.keys()}
         order = {id(n): i for i, n in enumerate(nodes)}
@@ -72,6 +80,11 @@ def tagger(variant: str, seed: int):
                 choice[id(n)] = [ImplStored()] if has_red else [ImplSubstitution()] if i % 2 else []
             elif variant == "subst_in_reduction":
                 choice[id(n)] = [] if has_red else [ImplSubstitution()]
+            elif variant.startswith("prefix_sizeparam"):
+                # a temporary / substitution rule whose requested prefix is the name of a size parameter
+                sp = sorted(s_.name for s_ in pt.transform.InputGatherer()(dag) if isinstance(s_, pt.array.SizeParam))
+                impl = ImplStored() if variant.endswith("stored") else ImplSubstitution()
+                choice[id(n)] = [impl, PrefixNamed(sp[i % len(sp)])] if sp and id(n) not in outs else []
 
         def f(n):
             if id(n) not in choice:
@@ -152,21 +165,84 @@ def tagged_job(prog: str, variant: str, seed: int = 0) -> JobOut:
                                               "structure_differs_from_untagged": n_tmp1 != n_tmp0})
 
 
+def sym_tagged_job(prog: str, variant: str, seed: int = 0) -> JobOut:
+    """tagged variants of size-parameter programs: the kernel must stay well-formed (no generated name may
+    shadow a size parameter / argument) and compute the untagged meaning for every size"""
+    import pytato as pt
+    from pv.props.c05 import _target
+    from pv.props.common import Skolems, idx_params, in_range, sk_params, take, teq
+    from pv.drive import FnOb
+    from pv.sem.alg import TermAlg
+    from pv.sem.knlsem import KernelModel
+    P = {p.name: p for p in C.SYM_CORPUS}[prog]
+    try:
+        outs, ins, S = C.build_sym_pytato(P)
+        dag0 = pt.transform.deduplicate(pt.make_dict_of_named_arrays(outs))
+        pt.generate_loopy(dag0, target=_target())
+    except Exception as e:  # noqa: BLE001
+        return JobOut(declined=f"untagged program does not generate (C16's subject): {type(e).__name__}: {e}")
+    pre = f"{prog}/{variant}"
+    try:
+        dag = pt.transform.deduplicate(tagger(variant, seed)(dag0, ins))
+        bp = pt.generate_loopy(dag, target=_target())
+        model = KernelModel(bp.program)
+    except Exception as e:  # noqa: BLE001
+        import traceback
+        return JobOut(sides=[Side(f"{pre}/tagged-variant-generates", False, f"{type(e).__name__}: {e}\n{traceback.format_exc(limit=5)}")])
+    sides = [Side(f"{pre}/kernel-structure", not model.structural_problems, model.structural_problems[:5])]
+    # the tagged kernel must also get through loopy's own preprocessing (name clashes are diagnosed there)
+    try:
+        import loopy as lp
+        lp.preprocess_program(bp.program) if hasattr(lp, "preprocess_program") else lp.preprocess_kernel(bp.program)
+        sides.append(Side(f"{pre}/loopy-accepts-kernel", True))
+    except Exception as e:  # noqa: BLE001
+        sides.append(Side(f"{pre}/loopy-accepts-kernel", False, f"{type(e).__name__}: {str(e)[:300]}"))
+    kinds = {n: "f" for n, *_ in P.inputs}
+    obs = []
+    if not model.structural_problems:
+        for k in sorted(dag.keys()):
+            nd = dag[k].ndim
+            params = [(s_, "int") for s_ in P.sizes] + idx_params(nd) + sk_params(6)
+
+            def pre_c(**p):
+                return all(p[s_] >= P.min_size for s_ in P.sizes)
+
+            def body_c(ob, k=k, nd=nd, **p):
+                sizes = {s_: p[s_] for s_ in P.sizes}
+                alg = TermAlg(kinds)
+                ref, _ = C.build_sym_ref(P, SymNP(alg), sizes)
+                idx = take(p, "i", nd)
+                if not in_range(idx, ref[k].shape):
+                    return True
+                ob.reach()
+                return teq(model.at(alg, k, idx, sizes=sizes), ref[k].at(idx), Skolems(take(p, "k", 6)))
+            smp = {s_: 3 for s_ in P.sizes} | {f"i{d}": 0 for d in range(nd)} | {f"k{d}": 0 for d in range(6)}
+            obs.append(FnOb(f"{pre}/{k}", params, body_c, pre_c, [smp], timeout=240, unbounded=P.sizes,
+                            info={"program": prog, "tag assignment": variant, "sizes": "symbolic, unbounded"}))
+    return JobOut(obs=obs, sides=sides)
+
+
 def jobs(tier: str, seed: int):
     th = tier == "thorough"
     progs = C.corpus(tier, seed)
     if not th:
         keep = {"reduce_of_expr", "sharing", "matmul_chain", "stack_of_reductions", "reshape_cf", "adv_index", "where_idx",
                 "roll_transpose", "einsum_forms", "data_wrappers", "mixed_pipeline", "reductions", "creation", "stack_concat",
-                "out_is_input"}
+                "out_is_input", "csr_matmul", "loopy_calls"}
         progs = [p for p in progs if p.name in keep]
     J = []
     for P in progs:
         for v in VARIANTS:
             J.append(Job(MOD, "tagged_job", {"prog": P.name, "variant": v, "seed": seed}, jid=f"{P.name}/{v}",
                          hard_timeout=1200))
+    symprogs = C.SYM_CORPUS if th else [p for p in C.SYM_CORPUS if p.name in ("sym_elementwise", "sym_reduce_static", "sym_einsum",
+                                                                            "sym_roll", "sym_stack")]
+    for P in symprogs:
+        for v in SYM_VARIANTS:
+            J.append(Job(MOD, "sym_tagged_job", {"prog": P.name, "variant": v, "seed": seed}, jid=f"{P.name}/{v}",
+                         hard_timeout=1200))
     meta = {
-        "programs": len(progs),
+        "programs": len(progs) + len(symprogs),
         "explanation": "Translation validation of tagged variants: for each program x tag assignment the kernel from the "
                        "real generate_loopy (stored temporaries, substitution rules, inlined expressions, named "
                        "temporaries) is evaluated at a symbolic index over uninterpreted inputs and must equal the "
